@@ -70,8 +70,11 @@ pub fn run_job(job: &Value) -> Value {
   let front = catch_unwind(AssertUnwindSafe(|| {
     let mut error_set = ErrorSet::new();
     let mut parsed = HashMap::new();
-    for (m, text) in &sources {
-      parsed.insert(*m, samlang_parser::parse_source_module_from_text(text, *m, &mut heap, &mut error_set));
+    // as samlang_compiler::compile_sources does since b2cae97: in the order of the module references
+    let mut ms: Vec<ModuleReference> = sources.keys().copied().collect();
+    ms.sort();
+    for m in &ms {
+      parsed.insert(*m, samlang_parser::parse_source_module_from_text(&sources[m], *m, &mut heap, &mut error_set));
     }
     if job["format"].as_bool().unwrap_or(false) {
       let t0 = std::time::Instant::now();
@@ -89,6 +92,7 @@ pub fn run_job(job: &Value) -> Value {
     Err(e) => (vec![], String::new(), json!(panic_msg(e))),
   };
   let mut compile = json!("skipped");
+  let mut compile_text = String::new();
   let mut files = json!({});
   if job["compile"].as_bool().unwrap_or(false) {
     let entries: Vec<ModuleReference> =
@@ -108,12 +112,18 @@ pub fn run_job(job: &Value) -> Value {
         }
         json!("ok")
       }
-      Ok(Err(_)) => json!("rejected"),
+      Ok(Err(t)) => {
+        // the diagnostics as the real driver renders them (its own parse loop)
+        compile_text = t;
+        json!("rejected")
+      }
       Err(e) => json!(format!("panic: {}", panic_msg(e))),
     };
   }
-  let text = if job["want_text"].as_bool().unwrap_or(false) { text } else { String::new() };
-  json!({"id": job["id"], "errors": errors, "text": text, "front_panic": front_panic, "compile": compile, "files": files, "format_ms": format_ms})
+  let want_text = job["want_text"].as_bool().unwrap_or(false);
+  let text = if want_text { text } else { String::new() };
+  let compile_text = if want_text { compile_text } else { String::new() };
+  json!({"id": job["id"], "errors": errors, "text": text, "compile_text": compile_text, "front_panic": front_panic, "compile": compile, "files": files, "format_ms": format_ms})
 }
 
 pub fn main(_args: &[String]) {
